@@ -119,8 +119,10 @@ def save_found(pid, src, tag):
 
 
 def matches_known(pid, msg):
+    """A failure of the generated tier counts as a listed finding only when the check itself
+    identified the finding's trigger and tagged the message with [finding:<id>]."""
     for f in known_findings():
-        if f.get("property") == pid and f.get("status") == "open" and f.get("signature") and f["signature"] in msg:
+        if f.get("property") == pid and f.get("status") == "open" and ("[finding:%s]" % f["id"]) in msg:
             return f
     return None
 
